@@ -171,7 +171,7 @@ func runC13(c *core.Ctx) error {
 					c.Ev.Nontrivial(schemaKey(u.Schema) + "|" + variant + "|" + mockFor(u.Schema))
 				}
 				for _, tg := range u.Schema.Tags {
-					if strings.HasPrefix(tg, "feat:") || strings.HasPrefix(tg, "int64:") || strings.HasPrefix(tg, "timestamp:") || strings.HasPrefix(tg, "bytes:") || strings.HasPrefix(tg, "name:") || strings.HasPrefix(tg, "header_text:") || strings.HasPrefix(tg, "enum_value:") || strings.HasPrefix(tg, "oneof_value:") || strings.HasPrefix(tg, "examples:") || strings.HasPrefix(tg, "header_example:") {
+					if strings.HasPrefix(tg, "feat:") || strings.HasPrefix(tg, "int64:") || strings.HasPrefix(tg, "timestamp:") || strings.HasPrefix(tg, "bytes:") || strings.HasPrefix(tg, "name:") || strings.HasPrefix(tg, "header_text:") || strings.HasPrefix(tg, "enum_value:") || strings.HasPrefix(tg, "oneof_value:") || strings.HasPrefix(tg, "examples:") || strings.HasPrefix(tg, "header_example:") || strings.HasPrefix(tg, "foreign_rpc_body") || tg == "nested_rpc_body" || tg == "companion_package" || tg == "second_service_file" {
 						c.Ev.Class(tg, 1)
 					}
 				}
